@@ -562,8 +562,17 @@ func (c01) Table(rows []Ev, tier string, seed int64, rep *TableReport) {
 		cls("equal/cancelling-differences", 2)
 	}
 	// FromBytes: only exactly 188 bytes construct a packet
-	for ln := 0; ln <= 400; ln++ {
+	for ln2 := 0; ln2 <= 801; ln2++ {
+		// every length 0..400, once as a slice of its own and once as the front of a 4096-byte buffer (a short read into a
+		// reused buffer): the length of the slice counts, not what its backing array could hold
+		ln := ln2 / 2
 		buf := make([]byte, ln)
+		if ln2%2 == 1 {
+			big := make([]byte, 4096)
+			r.Read(big)
+			big[0], big[3] = 0x47, 0x10
+			buf = big[:ln]
+		}
 		r.Read(buf)
 		if ln > 3 {
 			buf[0], buf[3] = 0x47, 0x10
